@@ -1017,6 +1017,73 @@ Proof.
     cbn [obind drop]; rewrite <- !app_assoc; reflexivity.
 Qed.
 
+(* ---------- PtgRefN / PtgAreaN: the reference seen from the base cell ---------- *)
+Lemma col_field_mod16384 : forall c rr cr, c < 16384 -> col_field c rr cr mod 16384 = c.
+Proof. intros c rr cr H. unfold col_field. destruct rr, cr; lia. Qed.
+
+Lemma rel_ref_b_translate : forall a br bc, wf_cref 4294967296 a = true ->
+  rel_ref_b (cr_row a) (cfield a) (br, bc)
+  = (cr_row (translate_b (Some (br, bc)) a),
+     col_field (cr_col (translate_b (Some (br, bc)) a)) (cr_row_rel a) (cr_col_rel a)).
+Proof.
+  intros a br bc H. destruct (wf_cref_bounds _ _ H) as (Hr & Hc & Hf).
+  unfold rel_ref_b, cfield, translate_b. cbn [fst snd cr_row cr_col].
+  destruct (col_field_bits (cr_row_rel a) (cr_col_rel a) Hc) as (Hl & H14 & H15).
+  rewrite H14, H15, Hl.
+  f_equal.
+  - destruct (cr_row_rel a); [|reflexivity].
+    rewrite (N.add_comm br). lia.
+  - destruct (cr_col_rel a); [|reflexivity]. f_equal.
+    pose proof (col_field_mod16384 (cr_row_rel a) true Hc) as Hm.
+    remember (col_field (cr_col a) (cr_row_rel a) true) as cf. lia.
+Qed.
+
+Lemma translate_b_bounds : forall b a, wf_cref 4294967296 a = true ->
+  cr_row (translate_b b a) < 4294967296 /\ cr_col (translate_b b a) < 16384.
+Proof.
+  intros b a H. destruct (wf_cref_bounds _ _ H) as (Hr & Hc & _).
+  destruct b as [[br bc]|]; cbn [translate_b cr_row cr_col]; [|split; assumption].
+  split.
+  - destruct (cr_row_rel a); [|assumption].
+    assert ((br + cr_row a) mod 1048576 < 1048576) by (apply N.mod_lt; lia). lia.
+  - destruct (cr_col_rel a); [|assumption]. apply N.mod_lt. lia.
+Qed.
+
+Lemma render_cref_translate_b : forall b a,
+  render_cref (translate_b b a)
+  = a1_ref (cr_row (translate_b b a)) (cr_col (translate_b b a)) (cr_row_rel a) (cr_col_rel a).
+Proof. intros [[br bc]|] a; reflexivity. Qed.
+
+Lemma xlsb_step_refn : forall k a base rest st buf,
+  be_base env = Some base -> wf_cref 4294967296 a = true ->
+  step (cls_ptg 0x2C 0x4C 0x6C k) (le 4 (cr_row a) ++ le 2 (cfield a) ++ rest) (st, buf)
+  = Ok (rest, (length buf :: st, buf ++ render_cref (translate_b (be_base env) a))).
+Proof.
+  intros k a [br bc] rest st buf Hb H. destruct (wf_cref_bounds _ _ H) as (Hr & Hc & Hf).
+  destruct (translate_b_bounds (Some (br, bc)) a H) as (Tr & Tc).
+  destruct k; cbn [cls_ptg]; unfold xlsb_step; rewrite Hb; cbn [fst snd le app u16_at u32_at skipn obind];
+    rewrite !le4_eq by assumption; rewrite !le2_eq by assumption;
+    rewrite rel_ref_b_translate by exact H; cbn [fst snd]; pcr;
+    cbn [obind drop]; rewrite render_cref_translate_b; reflexivity.
+Qed.
+
+Lemma xlsb_step_arean : forall k a b base rest st buf,
+  be_base env = Some base -> wf_cref 4294967296 a = true -> wf_cref 4294967296 b = true ->
+  step (cls_ptg 0x2D 0x4D 0x6D k)
+    (le 4 (cr_row a) ++ le 4 (cr_row b) ++ le 2 (cfield a) ++ le 2 (cfield b) ++ rest) (st, buf)
+  = Ok (rest, (length buf :: st, buf ++ render_cref (translate_b (be_base env) a) ++ [ch_colon]
+                                     ++ render_cref (translate_b (be_base env) b))).
+Proof.
+  intros k a b [br bc] rest st buf Hb Ha Hbb.
+  destruct (wf_cref_bounds _ _ Ha) as (Hr & Hc & Hf). destruct (wf_cref_bounds _ _ Hbb) as (Hr' & Hc' & Hf').
+  destruct (translate_b_bounds (Some (br, bc)) a Ha) as (Tr & Tc).
+  destruct (translate_b_bounds (Some (br, bc)) b Hbb) as (Tr' & Tc').
+  destruct k; cbn [cls_ptg]; unfold xlsb_step; rewrite Hb; cbn [fst snd le app u16_at u32_at skipn obind];
+    rewrite !le4_eq by assumption; rewrite !le2_eq by assumption;
+    rewrite !rel_ref_b_translate by assumption; cbn [fst snd]; pcr;
+    cbn [obind]; pcr; cbn [obind drop]; rewrite !render_cref_translate_b, <- !app_assoc; reflexivity.
+Qed.
+
 Lemma sheet_name_xlsb_ok : forall ix, ix < N.of_nat (length (be_sheets env)) ->
   sheet_name_xlsb env ix = Ok (spec_sheet_xlsb env ix).
 Proof.
@@ -1343,8 +1410,18 @@ Proof.
     cbn [app]. rewrite <- !app_assoc. cbn [Nat.add]. rewrite xlsb_run_S by len_tac.
     rewrite xlsb_step_attrchoose by assumption. cbn [obind fst snd]. rewrite IHe.
     unfold render_xlsb. cbn [render]. reflexivity.
-  - (* ERefN: not in the xlsb domain *) discriminate.
-  - (* EAreaN *) discriminate.
+  - (* ERefN: only with a base cell *)
+    apply andb_prop in Hwf. destruct Hwf as [Hbase Ha].
+    destruct (be_base env) as [base|] eqn:Eb; [|discriminate].
+    unfold encode_xlsb. cbn [ntok Nat.add encode app]. rewrite <- app_assoc.
+    rewrite xlsb_run_S by len_tac; rewrite (@xlsb_step_refn show_f64 env _ k a base) by assumption.
+    unfold render_xlsb. cbn [render obind fst snd]. rewrite Eb. reflexivity.
+  - (* EAreaN *)
+    apply andb_prop in Hwf. destruct Hwf as [Hwf Hb]. apply andb_prop in Hwf. destruct Hwf as [Hbase Ha].
+    destruct (be_base env) as [base|] eqn:Eb; [|discriminate].
+    unfold encode_xlsb. cbn [ntok Nat.add encode app]. rewrite <- !app_assoc.
+    rewrite xlsb_run_S by len_tac; rewrite (@xlsb_step_arean show_f64 env _ k a b base) by assumption.
+    unfold render_xlsb. cbn [render obind fst snd]. rewrite Eb. reflexivity.
 Qed.
 
 End XlsbMain.
@@ -1441,7 +1518,7 @@ Definition ex_choose_text (n : nat) : list N :=
 
 Example repaired_witnesses :
   let xenv := {| xe_sheets := []; xe_names := [lit "_xlfn.CONCAT"]; xe_xtis := []; xe_base := None |} in
-  let benv := {| be_sheets := []; be_names := [lit "_xlfn.CONCAT"] |} in
+  let benv := {| be_sheets := []; be_names := [lit "_xlfn.CONCAT"]; be_base := None |} in
   let sf := fun _ : N => @nil N in
   xlsb_parse_formula sf benv [0x23; 1; 0; 0; 0; 0x17; 1; 0; 65; 0; 0x19; 0x40; 0; 1; 0x17; 1; 0; 98; 0; 0x42; 3; 255; 0]
     = Ok (lit "_xlfn.CONCAT(""A"",""b"")") /\
@@ -1469,7 +1546,7 @@ Proof. vm_compute. repeat split. Qed.
    instances of the theorems; kept as computed regression examples. *)
 Example former_known_witnesses :
   let env := {| xe_sheets := []; xe_names := []; xe_xtis := []; xe_base := None |} in
-  let benv := {| be_sheets := []; be_names := [] |} in
+  let benv := {| be_sheets := []; be_names := []; be_base := None |} in
   xls_parse_formula (fun _ => []) env (frame_xls (encode_xls (EStr true [97; 98]))) = Ok (lit """ab""") /\
   xls_parse_formula (fun _ => []) env (frame_xls (encode_xls (EStr false [97; 34; 98]))) = Ok (lit """a""""b""") /\
   xlsb_parse_formula (fun _ => []) benv (encode_xlsb (EStr false [97; 34; 98])) = Ok (lit """a""""b""") /\
@@ -1482,7 +1559,7 @@ Proof. vm_compute. repeat split. Qed.
 Definition ex_env_xls : xls_env :=
   {| xe_sheets := [lit "Sheet1"; lit "Sheet2"]; xe_names := [lit "rate"];
      xe_xtis := [(0, 1, 1); (0, 65535, 65535)]; xe_base := None |}.
-Definition ex_env_xlsb : xlsb_env := {| be_sheets := [lit "Sheet1"; lit "Sheet2"]; be_names := [lit "rate"] |}.
+Definition ex_env_xlsb : xlsb_env := {| be_sheets := [lit "Sheet1"; lit "Sheet2"]; be_names := [lit "rate"]; be_base := None |}.
 Definition ex_expr : expr :=
   let a := {| cr_row := 0; cr_col := 0; cr_row_rel := true; cr_col_rel := true |} in
   let b := {| cr_row := 1; cr_col := 27; cr_row_rel := false; cr_col_rel := false |} in
